@@ -15,3 +15,13 @@ def run(chk):
     X.handlers_dispatch(chk, "C08")
     from . import misc_contracts
     misc_contracts.context_construction(chk, "C08")
+    # "parent links reported to the backend always name the enclosing context's identifier": every update a handler sends (START, RETRY,
+    # SUCCEED, FAIL) carries the id and parent id of the identifier it was constructed with
+    from .handlers import explore
+    from .common import handler_preamble
+    from .c01 import FUNCS
+    from . import hobl
+    for kind in ("step", "wfc", "child", "wait", "invoke", "callback"):
+        ex = explore(kind)
+        handler_preamble(chk, ex, FUNCS[kind])
+        hobl.ids_passthrough(chk, ex, "C08")
